@@ -23,8 +23,8 @@ FR = json.load(open(os.path.join(V, "seeded", "first_run.json")))
 def seeded():
     out = ["| seed | file / kind | what breaks | caught by (quick checks, after strengthening) | first run |", "|---|---|---|---|---|"]
     def key(d):
-        m = re.match(r".*/(r2-)?C(\d+)-(\d+)$", d)
-        return (1 if m.group(1) else 0, int(m.group(2)), int(m.group(3)))
+        m = re.match(r".*/(r(\d)-)?C(\d+)-(\d+)$", d)
+        return (int(m.group(2)) if m.group(1) else 1, int(m.group(3)), int(m.group(4)))
     for d in sorted(glob.glob(os.path.join(V, "seeded", "*")), key=key):
         if not os.path.exists(os.path.join(d, "meta.json")):
             continue
